@@ -430,13 +430,13 @@ class Scenario:
         ids = [c.id for c in self.clients if c.id is not None] + [0, 1, 2, 7, 63, 1000000]
         x = r.below(12)
         if x == 0:
-            self.do("READY %d" % r.choice(ids), ("hostile_ready",))
+            self.do("XREADY %d" % r.choice(ids), ("hostile_ready",))
         elif x == 1:
-            self.do("DATA %d" % r.choice(ids), ("hostile_data",))
+            self.do("XDATA %d" % r.choice(ids), ("hostile_data",))
         elif x == 2:
-            self.do("DISCONNECT %d" % r.choice(ids), ("hostile_disconnect",))
+            self.do("XDISCONNECT %d" % r.choice(ids), ("hostile_disconnect",))
         elif x == 3:
-            self.do("SHADOW %d %s" % (r.choice(ids), hx(r.choice(FILTERS + ["zz"]))), ("hostile_shadow",))
+            self.do("XSHADOW %d %s" % (r.choice(ids), hx(r.choice(FILTERS + ["zz"]))), ("hostile_shadow",))
         elif x == 4:
             self.do("WILL %s" % hx(r.choice([c.name for c in self.clients] + ["nobody"])), ("hostile_will",))
         elif x == 5:
@@ -459,7 +459,7 @@ class Scenario:
             if dead:
                 d = r.choice(dead)
                 self.do("PUSH %d PING" % d.link, ("stale_push",))
-                self.do("DATA %d" % d.id, ("stale_data",))
+                self.do("XDATA %d" % d.id, ("stale_data",))
         else:
             self.do("PUSH %d PING" % r.choice([0, 1, 99]), ("raw_push",))
 
